@@ -2,7 +2,6 @@
     contents of the version it was created as, loaded from or last persisted as.  Lemma file. *)
 From Coq Require Import List NArith ZArith Lia Bool Arith.
 From Mast Require Import Prim Key Tree KeyOrder Codec Store Diff World Erase Build Spec Canon Links Level Inv Persist Hist Reload Atomic WorldInv Clean.
-From Mast Require Import ReloadB.
 Import ListNotations.
 
 Opaque name_of blake2b_256 b64url crc64 uint_layer_fuel.
